@@ -380,7 +380,8 @@ class ChunkFields(Harness):
     def skeletons(self, tier, seed):
         return [dict(kind=k, mode=m) for k in ("bed12", "bed6", "fastq", "vcf")
                 for m in ("write_read_write", "read_twice", "read_replace_write", "slice_write_read_parent", "read_copy_read", "replace_chain")
-                if not (k in ("fastq", "vcf") and m in ("read_replace_write", "replace_chain"))]
+                if not (k in ("fastq", "vcf") and m in ("read_replace_write", "replace_chain"))] + \
+               [dict(kind="bed12", mode=m, n=1, no_final_newline=nf) for m in ("write_read_write", "read_twice") for nf in (False, True)]      # a chunk of ONE record
 
     def _file(self, skel, x):
         kind = skel["kind"]
@@ -391,13 +392,13 @@ class ChunkFields(Harness):
         g = lambda n: x[n]
         if kind == "bed12":
             out = []
-            for r in range(2):
+            for r in range(skel.get("n", 2)):
                 cells = [[g(f"r{r}_c")], [g(f"r{r}_s")], [g(f"r{r}_e0"), g(f"r{r}_e1")], [g(f"r{r}_n")], [g(f"r{r}_sc")], [g(f"r{r}_st")],
                          [g(f"r{r}_ts")], [g(f"r{r}_te")], [48], [50], [g(f"r{r}_b0"), 44, g(f"r{r}_b1"), g(f"r{r}_b2")],
                          [g(f"r{r}_o0"), 44, g(f"r{r}_o1")]]
                 for k, cell in enumerate(cells):
                     out += cell + ([9] if k < len(cells) - 1 else [10])
-            return out
+            return out[:-1] if skel.get("no_final_newline") else out
         head = list(b"##fileformat=VCFv4.2\n#CHROM\tPOS\tID\tREF\tALT\tQUAL\tFILTER\tINFO\tFORMAT\tS1\tS2\n")
         out = head
         for r in range(2):
@@ -414,7 +415,7 @@ class ChunkFields(Harness):
         elif kind == "fastq":
             F.declare_seq(V, dict(fmt="fastq", records=[[1, 2], [2, 1]]))
         elif kind == "bed12":
-            for r in range(2):
+            for r in range(skel.get("n", 2)):
                 for nm in ("c", "n"):
                     V.int(f"r{r}_{nm}", 65, 90)
                 for nm in ("s", "e0", "e1", "sc", "ts", "te", "b0", "b1", "b2", "o0", "o1"):
